@@ -15,22 +15,50 @@ import time
 
 VERIF = os.path.dirname(os.path.dirname(os.path.abspath(__file__)))
 REPO = "/repo"
+SCRATCH = "/tmp/seedrepo"   # scratch worktree of /repo the changes are applied to (VERIF_REPO points the checks at it)
 
 
 def sh(*a, **k):
     return subprocess.run(list(a), capture_output=True, text=True, **k)
 
 
-def run_check(pid, tier):
+def run_check(pid, tier, repo=None):
     t = time.time()
-    p = sh("/venv/bin/python", os.path.join(VERIF, "harness", "check.py"), pid, "--tier", tier, cwd=VERIF, timeout=3600)
+    env = dict(os.environ)
+    if repo:
+        env["VERIF_REPO"] = repo
+        env["PYTHONPATH"] = repo
+    p = subprocess.run(["/venv/bin/python", os.path.join(VERIF, "harness", "check.py"), pid, "--tier", tier], cwd=VERIF, timeout=3600,
+                       capture_output=True, text=True, env=env)
     out = p.stdout + p.stderr
     viol = [l for l in out.split("\n") if l.startswith("VIOLATION")]
     return p.returncode, viol, round(time.time() - t, 1), out
 
 
 def clean():
-    assert sh("git", "-C", REPO, "status", "--porcelain", "--untracked-files=no").stdout.strip() == "", "/repo is dirty"
+    """(re)create the scratch worktree at /repo's HEAD. With --in-repo the change is applied to /repo itself instead."""
+    global TARGET
+    if "--in-repo" in sys.argv:
+        TARGET = REPO
+        assert sh("git", "-C", REPO, "status", "--porcelain", "--untracked-files=no").stdout.strip() == "", "/repo is dirty"
+        return
+    TARGET = SCRATCH
+    if not os.path.isdir(SCRATCH):
+        r = sh("git", "-C", REPO, "worktree", "add", "--detach", SCRATCH, "HEAD")
+        assert r.returncode == 0, r.stderr
+    sh("git", "-C", SCRATCH, "checkout", "--", ".")
+    r = sh("git", "-C", SCRATCH, "checkout", "-q", "--detach", sh("git", "-C", REPO, "rev-parse", "HEAD").stdout.strip())
+    assert r.returncode == 0, r.stderr
+
+
+def restore(pids, tier):
+    """the checks regenerate lean/BeyondVerif/Generated from the tree they are pointed at: regenerate from /repo afterwards"""
+    if TARGET != REPO:
+        for pid in pids:
+            run_check(pid, "quick")
+
+
+TARGET = REPO
 
 
 def main():
@@ -40,6 +68,7 @@ def main():
         tier = sys.argv[sys.argv.index("--tier") + 1]
         args = [a for a in args if a != tier]
     results = []
+    touched = set()
     clean()
     sdir = os.path.join(VERIF, "seeded")
     names = sorted(os.listdir(sdir)) if os.path.isdir(sdir) else []
@@ -50,23 +79,24 @@ def main():
             meta = json.load(open(os.path.join(sdir, name, "meta.json")))
             pids = meta.get("checked_by") or [meta["property"]]
             patch = os.path.join(sdir, name, "patch.diff")
-            a = sh("git", "-C", REPO, "apply", patch)
+            a = sh("git", "-C", TARGET, "apply", patch)
             if a.returncode != 0:
                 results.append((name, pids, "patch does not apply: " + a.stderr[:200]))
                 continue
             try:
                 for pid in pids:
-                    code, viol, secs, out = run_check(pid, tier)
+                    code, viol, secs, out = run_check(pid, tier, None if TARGET == REPO else TARGET)
                     results.append((name, pid, f"exit={code} {viol[0] if viol else 'NO VIOLATION'} ({secs}s)"))
+                    touched.add(pid)
             finally:
-                sh("git", "-C", REPO, "checkout", "--", ".")
+                sh("git", "-C", TARGET, "checkout", "--", ".")
     else:
         known = json.load(open(os.path.join(VERIF, "known_findings.json")))["findings"]
         for k in known:
             if k.get("status") != "fixed" or (args and k["id"] not in args):
                 continue
             r = sh("git", "-C", REPO, "diff", f"{k['commit']}~1", k["commit"])
-            a = subprocess.run(["git", "-C", REPO, "apply", "-R"], input=r.stdout, capture_output=True, text=True)
+            a = subprocess.run(["git", "-C", TARGET, "apply", "-R"], input=r.stdout, capture_output=True, text=True)
             if a.returncode != 0:
                 results.append((k["id"], k["property"], "revert does not apply: " + a.stderr[:200]))
                 continue
@@ -76,11 +106,12 @@ def main():
                     if not os.path.exists(os.path.join(VERIF, "harness", "props", pid + ".py")):
                         results.append((k["id"], pid, "no check yet"))
                         continue
-                    code, viol, secs, out = run_check(pid, tier)
+                    code, viol, secs, out = run_check(pid, tier, None if TARGET == REPO else TARGET)
                     results.append((k["id"], pid, f"exit={code} {viol[0] if viol else 'NO VIOLATION'} ({secs}s)"))
+                    touched.add(pid)
             finally:
-                sh("git", "-C", REPO, "checkout", "--", ".")
-    clean()
+                sh("git", "-C", TARGET, "checkout", "--", ".")
+    restore(sorted(touched), tier)
     for r in results:
         print(*r, sep=" | ")
 
